@@ -411,6 +411,26 @@ Definition case_geo_to (l : list Z) : list Z :=
   | _ => [-1]
   end.
 
+(** kind 13: the shapes of a file as the generic reader returns them, each converted to a geometry *)
+Definition K_GEO_FILE : Z := 13.
+Definition case_geo_file (l : list Z) : list Z :=
+  match p_bytes l with
+  | Some (shp, []) =>
+      let cap := (length shp / 12 + 2)%nat in
+      match fst (run (st <-- r_new ;; x <-- it_pull cap None st ;; Ret (fst (fst x))) (src_of shp)) with
+      | Ok items =>
+          match collect_items items with
+          | Ok shapes =>
+              0 :: zlen shapes :: flat_map (fun s => match to_geo s with None => [1] | Some g => 0 :: r_geo g end) shapes
+          | Err _ => [1]
+          | Panic => [2]
+          end
+      | Err _ => [1]
+      | Panic => [2]
+      end
+  | _ => [-1]
+  end.
+
 Definition case_geo_from (l : list Z) : list Z :=
   match p_geo l with
   | Some (g, []) => r_from (from_geo g) (fun s => match to_geo s with None => [1] | Some g2 => 0 :: r_geo g2 end)
@@ -433,6 +453,33 @@ Definition case_geo_dims (l : list Z) : list Z :=
   | _ => [-1]
   end.
 
+(** ** A file copy (kind 14): [shp bytes] -> read everything generically
+    (`ShapeReader::new(..).read()`), leave the null shapes out, write the rest
+    with a writer (with index) that is then dropped. *)
+Definition K_COPY : Z := 14.
+
+Definition is_null_shape (s : shape) : bool := match s with SNull => true | _ => false end.
+
+Definition case_copy (l : list Z) : list Z :=
+  match p_bytes l with
+  | Some (shp, []) =>
+      let cap := (length shp / 12 + 2)%nat in
+      match fst (run (st <-- r_new ;; x <-- it_pull cap None st ;; Ret (fst (fst x))) (src_of shp)) with
+      | Ok items =>
+          match collect_items items with
+          | Ok shapes =>
+              let cs := map CWrite (filter (fun s => negb (is_null_shape s)) shapes) in
+              let '(rs, w) := run_history true world0 cs EDrop in
+              0 :: zlen rs :: flat_map r_unit_res rs ++ r_world w
+          | Err e => 1 :: err_codes e
+          | Panic => [2]
+          end
+      | Err e => 1 :: err_codes e
+      | Panic => [2]
+      end
+  | _ => [-1]
+  end.
+
 Definition run_case2 (l : list Z) : list Z :=
   match l with
   | k :: r =>
@@ -441,8 +488,10 @@ Definition run_case2 (l : list Z) : list Z :=
       else if k =? K_REF then case_ref r
       else if k =? K_CONV then case_conv r
       else if k =? K_PAIR then case_pair r
+      else if k =? K_COPY then case_copy r
       else if k =? K_GEO_TO then case_geo_to r
       else if k =? K_GEO_FROM then case_geo_from r
+      else if k =? K_GEO_FILE then case_geo_file r
       else if k =? K_GEO_DIMS then case_geo_dims r
       else run_case l
   | [] => [-1]
